@@ -35,7 +35,10 @@ def run(ctx):
     raw_mpi_only_from_parsed_data(ctx, P)
     dropped_prefix_octet_is_compared(ctx, P)
     unprotected_checksum_by_version(ctx, P)
+    v2_judged_as_v3(ctx, P)
+    s2k_specifier_length_agrees(ctx, P)
     stored_length_encoding(ctx, P)
+    stored_length_checked_against_data(ctx, P)
     s2k_usage_tables(ctx, P)
     tag_tables(ctx, P)
     from rules.tables import rfc_id_tables
@@ -225,6 +228,36 @@ def header_derivation(ctx, P):
                 stale.append(i)
         ctx.check(P + ':S05-2:stored-header-only-for-indeterminate', 'R-dom', 'to_writer_with_header writes the stored header back only when its length is indeterminate (maybe_len() == None)',
                   not stale and bool(fp), function=b2.path, site=site(b2, stale[0]) if stale else None)
+    maybe_len_table(ctx, P)
+
+
+def maybe_len_table(ctx, P):
+    """The two rules above read `maybe_len() == None` as "the length is indeterminate".  That is a fact about PacketLength::maybe_len:
+    it answers None for `Indeterminate` and for nothing else (a `Partial` first-chunk length must get Some, or the stored partial header
+    of a packet that was read from chunks is written back in front of the whole body)."""
+    b = ctx.body('types::packet::PacketLength::maybe_len')
+    if b is None:
+        ctx.missing(P + ':S05-2:maybe-len-table', 'PacketLength::maybe_len not found')
+        return
+    table = {}
+    for i, t in b.switches():
+        info = enum_switch_info(b, i)
+        if not info or not info[0].endswith('PacketLength'):
+            continue
+        for j, _ in b.succ(i):
+            vs = edge_variants(b, i, j) or []
+            reach = b.reach_from([j], removed=frozenset([i]))
+            kinds = set()
+            for x in reach:
+                for st in b.blocks[x]['s']:
+                    if st['d']['l'] == 0 and not st['d']['pr'] and st['r']['k'] == 'agg' and st['r'].get('v') in ('None', 'Some'):
+                        kinds.add(st['r']['v'])
+            for v in vs:
+                table[v] = sorted(kinds)
+    none_for = sorted(v for v, k in table.items() if 'None' in k)
+    ctx.check(P + ':S05-2:maybe-len-table', 'R-table', 'PacketLength::maybe_len is None exactly for Indeterminate (so "no length" never means a partial first chunk)',
+              none_for == ['Indeterminate'] and len(table) >= 3, function=b.path, table=table,
+              missing=None if none_for == ['Indeterminate'] else 'maybe_len answers None for %s: the header of such a packet is written back as it was read, in front of the complete body' % none_for)
 
 
 def sum_type_header_once(ctx, P):
@@ -780,6 +813,36 @@ def stored_length_encoding(ctx, P):
                   good and not fresh and every, function=path, missing='SubpacketLength::encode() used in the writer' if fresh else None)
 
 
+def stored_length_checked_against_data(ctx, P):
+    """The other half of the stored-length design: a Subpacket keeps the length field it was read with and writes it back, so the
+    parser may only hand out a subpacket whose stored length IS the length of its data - `subpacket()` compares the announced length
+    with `data.write_len()` (rejecting) on every way to an Ok result.  A bound of the announced length by the enclosing area does not
+    replace it: the nested `Take` readers end a short body without an error."""
+    b = ctx.body('packet::signature::de::subpacket')
+    if b is None:
+        ctx.missing(P + ':S05-7:stored-length-equals-data', 'packet::signature::de::subpacket not found')
+        return
+    from rules.common import err_exit_blocks
+    oks = [i for i in ok_exit_blocks(b) if i not in set(err_exit_blocks(b))]
+    G = [g for g, _ in guard_switches(b, oks, [r'call:.*SubpacketLength::len$', r'call:.*Serialize::write_len$'])]
+    dom = b.dominators()
+    ok, why, where = False, 'no rejecting comparison of the announced length with write_len() of the parsed data', None
+    for S, t in b.switches():
+        info = enum_switch_info(b, S)
+        if not info or not info[0].endswith('result::Result') or not any(S in dom.get(g, ()) for g in G):
+            continue
+        if not must_pass(b, oks, [S])[0]:
+            continue
+        for j, _ in b.succ(S):
+            if edge_variants(b, S, j) == ['Ok']:
+                wit = b.find_path(j, set(oks), removed=frozenset(G))
+                ok = wit is None
+                if not ok:
+                    why, where = 'a parsed (Ok) subpacket reaches the return without the comparison', site(b, S)
+    ctx.check(P + ':S05-7:stored-length-equals-data', 'R-dom', 'subpacket() hands out a parsed subpacket only after comparing the announced length with the serialized length of its data (rejecting)',
+              ok and bool(G), function=b.path, site=where, missing=None if ok else why)
+
+
 def tag_tables(ctx, P):
     b1 = ctx.body('<types::packet::Tag as std::convert::From<u8>>::from')
     b2 = ctx.body('types::packet::<impl std::convert::From<types::packet::Tag> for u8>::from')
@@ -1114,3 +1177,89 @@ def unprotected_checksum_by_version(ctx, P):
     ctx.check(P + ':S05-18:v2-as-v3', 'R-table', 'version 2 keys, which have the version 3 format and are parsed by the same code, carry the checksum exactly when version 3 keys do',
               same, table=table, function='types::params::plain_secret::PlainSecretParams::try_from_reader',
               missing=None if same else 'the checksum path is taken for %s: a version 2 key (accepted by the v2/v3 key parser) loses its two checksum octets - they are neither read nor checked nor written back' % vals[0])
+
+
+def s2k_specifier_length_agrees(ctx, P):
+    """`StringToKey::len()` feeds the one-octet "length of the S2K specifier" field of v6 secret key packets (written by
+    EncryptedSecretParams::to_writer, compared by parse_secret_fields).  For every variant it answers for, it must be the number of
+    octets `Serialize::to_writer` / `write_len` of the specifier produce (both sides evaluated per variant by the byte-count analysis)."""
+    lb = ctx.f.bodies.get('types::s2k::StringToKey::len')
+    wb = ctx.f.bodies.get('<types::s2k::StringToKey as ser::Serialize>::write_len')
+    if lb is None or wb is None:
+        ctx.missing(P + ':S05-10:s2k-specifier-length', 'StringToKey::len / write_len not found')
+        return
+    a = serlen.analyse_len(ctx.f, core.B(lb))
+    w = serlen.analyse_len(ctx.f, core.B(wb))
+    af = serlen.array_fields(ctx.f)
+    serlen.normalise(a, {}, af)
+    serlen.normalise(w, {}, af)
+
+    def per_variant(side):
+        out = collections.defaultdict(int)
+        sym = set()
+        for g, t in side.terms:
+            for v in g[0]:
+                if t[0] == 'const' and not g[1] and not g[2]:
+                    out[v] += t[1]
+                else:
+                    sym.add(v)
+        return out, sym
+    la, sa = per_variant(a)
+    lw, sw = per_variant(w)
+    answered = sorted(v for v in la if v not in sa)
+    bad = {v: (la[v], lw.get(v)) for v in answered if v in sw or la[v] != lw.get(v)}
+    ctx.check(P + ':S05-10:s2k-specifier-length', 'R-len', 'StringToKey::len() equals the octets the specifier is written with, for every variant it answers for (%s)' % ', '.join(answered),
+              len(answered) >= 4 and not bad and not a.unanalysed and not w.unanalysed, function='types::s2k::StringToKey::len', table={v: la[v] for v in answered},
+              missing=None if (len(answered) >= 4 and not bad) else 'len() vs written octets per variant: %s' % {v: 'len %s, written %s' % x for v, x in bad.items()})
+
+
+V2_V3_DIFFER = {   # reviewed: functions in which version 2 and version 3 legitimately take different paths
+    '<packet::key::public::PubKeyInner as types::key_traits::KeyDetails>::fingerprint': 'the fingerprint value carries the key version: Fingerprint::V2 / Fingerprint::V3 (same MD5 digest)',
+    'types::fingerprint::Fingerprint::new': 'constructor of the versioned fingerprint value: one arm per version',
+}
+
+
+def v2_judged_as_v3(ctx, P, floor=40):
+    """Version 2 keys are version 3 keys with another version octet (RFC 4880 5.5.2); the library reads both with the same parsers and
+    `legacy_key_id` / `fingerprint` treat them alike.  A version test that lets V2 take another path than V3 - a restriction that
+    names only V3, a checksum that is only read for V3 - makes the v2 form of a key behave differently from its v3 form (accepted
+    where v3 is refused, and then panicking in `legacy_key_id`; written back short).  For every function that tests a key version, the
+    calls and constructions reachable when the version is V2 are those reachable when it is V3 (partial evaluation of `== KeyVersion::X`,
+    discriminant switches and `matches!`), except in the reviewed functions whose result names the version."""
+    n = 0
+    src = r'^param:\d+$|field:.*\.version$|call:.*::version$'
+    for p, r in sorted(ctx.f.bodies.items()):
+        if '::tests::' in p or r.get('derived'):
+            continue
+        b = ctx.wrap(r)
+        e2 = edges_pruned_for_version(b, 'V2', src)
+        e3 = edges_pruned_for_version(b, 'V3', src)
+        if not e2 and not e3:
+            ctx.functions.discard(p)
+            continue
+        n += 1
+        r2 = b.reach_from([0], removed_edges=frozenset(e2))
+        r3 = b.reach_from([0], removed_edges=frozenset(e3))
+
+        def sig(blocks):
+            out = set()
+            for x in blocks:
+                blk = b.blocks[x]
+                t = blk['t']
+                if t['k'] == 'call' and not (re.search(r'PartialEq::(eq|ne)$', t['f'].get('fn', '') or '') and 'KeyVersion' in (t['f'].get('full') or '')):
+                    out.add(('call', x))
+                if t['k'] == 'return':
+                    out.add(('ret', x))
+                for st in blk['s']:
+                    if st['r']['k'] == 'agg' and st['r'].get('ak') == 'adt':
+                        out.add(('agg', x, st['r'].get('v')))
+            return out
+        d = sig(r2) ^ sig(r3)
+        if p in V2_V3_DIFFER:
+            ctx.ok('%s:S05-18:v2-as-v3:%s' % (P, p), 'R-table', 'reviewed: %s' % V2_V3_DIFFER[p], function=p)
+            continue
+        where = sorted(set(b.line(x[1]) for x in d))
+        ctx.check('%s:S05-18:v2-as-v3:%s' % (P, p), 'R-table', '%s does the same for a version 2 key as for a version 3 key' % '::'.join(p.split('::')[-2:]),
+                  not d, function=p, site='%s:%s' % (r['file'], where[0]) if where else None,
+                  missing=None if not d else 'with version V2 other calls / constructions are reachable than with V3 (lines %s): the v2 form of a key is judged differently from its v3 form' % where[:6])
+    ctx.floor(P + ':S05-18:v2-as-v3:floor', 'functions that test a key version', n, floor)
